@@ -32,15 +32,26 @@ theorem asIs_of_strip {sub : Nat → Nat → Bool} {s d : Ty} (h : AsIs sub (str
   | unionMember hd hm => exact .unionMember (by simpa [stripTags_idem] using hd) (by simpa [stripTags_idem] using hm)
   | optional hs hd hab => exact .optional (by simpa [stripTags_idem] using hs) (by simpa [stripTags_idem] using hd) hab
 
-theorem classOrigin_nonGeneric {t : Ty} {a : Nat} (h : classOrigin t = some a) :
-    stripTags t = t ∧ NonGenericClass t a := by
+theorem classOriginSrc_classOf {t : Ty} {a : Nat} (h : classOriginSrc t = some a) :
+    stripTags t = t ∧ ClassOf t a := by
   cases t with
-  | any => simp [classOrigin] at h; subst h; exact ⟨rfl, .any⟩
+  | ftuple es =>
+    cases es with
+    | nil => simp [classOriginSrc] at h; subst h; exact ⟨rfl, .emptyTuple⟩
+    | cons _ _ => simp [classOriginSrc] at h
   | cls c args =>
     cases args with
-    | nil => simp [classOrigin] at h; subst h; exact ⟨rfl, .cls _⟩
-    | cons _ _ => simp [classOrigin] at h
-  | _ => simp [classOrigin] at h
+    | nil => simp [classOriginSrc] at h; subst h; exact ⟨rfl, .cls _⟩
+    | cons _ _ => simp [classOriginSrc] at h
+  | _ => simp [classOriginSrc] at h
+
+theorem classOriginDst_eq {t : Ty} {b : Nat} (h : classOriginDst t = some b) : t = .cls b [] := by
+  cases t with
+  | cls c args =>
+    cases args with
+    | nil => simp [classOriginDst] at h; subst h; rfl
+    | cons _ _ => simp [classOriginDst] at h
+  | _ => simp [classOriginDst] at h
 
 theorem sameType_doc {src dst : Ty} {c : Coercer} (h : stepSameType src dst = .ok c) :
     Doc cfg src dst c := by
@@ -63,9 +74,10 @@ theorem subclass_doc {src dst : Ty} {c : Coercer} (h : stepSubclass cfg src dst 
   · rename_i a b hs hd
     split at h
     · rename_i hab
-      obtain ⟨hs1, hs2⟩ := classOrigin_nonGeneric hs
-      obtain ⟨hd1, hd2⟩ := classOrigin_nonGeneric hd
-      exact doc_asIs (.subclass (by rw [hs1]; exact hs2) (by rw [hd1]; exact hd2) hab)
+      obtain ⟨hs1, hs2⟩ := classOriginSrc_classOf hs
+      have hd1 := classOriginDst_eq hd
+      subst hd1
+      exact doc_asIs (.subclass (by rw [hs1]; exact hs2) rfl hab)
     · cases h
   · cases h
 
